@@ -161,6 +161,20 @@ FIXED += [
      {"mode": "source", "std": "f2008", "ic": True, "text": "type(function_x) function ze67(a) result(y)\nend function ze67\ntype(xfunction) function g()\nend function g\n"}),
 ]
 
+FIXED += [
+    ("C06", "AttributeError@BlockBase.match", "ab091d3", "AttributeError escaped when an END statement carries a name but the opening statement has none ('blockdata' / 'END block data x')",
+     c06("blockdata \nEND block data realv\n")),
+]
+
+FIXED += [
+    ("C08", "accepted:insert-paren@intent", "3b8ee83", "abs(pattern) did not group its alternatives ('\\AINOUT|IN|OUT\\Z'): INTENT(IN)) :: a with a surplus ')' was accepted",
+     c08(wrap("  intent(in)) :: vf_a"), "insert-paren@intent")),
+    ("C08", "accepted:insert-paren@typedecl", "3b8ee83", "same mechanism: a type declaration with a surplus ')' after an attribute was accepted",
+     c08(wrap("  real(8), intent(in)) :: vf_a"), "insert-paren@typedecl")),
+    ("C08", "accepted:delete-paren@typedecl", "3b8ee83", "same mechanism: INTENT(IN), DIMENSION3) taken as one intent-spec",
+     c08(wrap("  integer, intent(in), dimension3) :: vf_a"), "delete-paren@typedecl")),
+]
+
 OPEN = [
     ("C03", "defined-binary-op-with-dotted-right", "a defined binary operator with a dotted operator or logical literal to its right at the same parenthesis level is not parsed (Expr.match splits at the right-most .word. and gives up if that one is intrinsic)",
      {"mode": "expr", "text": "a .x. b .and. c", "expected": "(a.x.(b.and.c))", "context": "expr", "known": True}),
@@ -182,11 +196,7 @@ OPEN = [
      c06("x = 1\nfoo:\nend\n")),
     ("C06", "InternalError@Kind_Selector.match", "InternalError escapes for a too short kind selector such as 'integer(' (asserted by the unit test of Kind_Selector)",
      c06("program p\n  integer, dimension(:, :) a: b(3)\nend program p\n")),
-    ("C06", "AttributeError@BlockBase.match", "AttributeError escapes when an END statement carries a name but the opening statement has none ('blockdata' / 'END block data x')",
-     c06("blockdata \nEND block data realv\n")),
     ("C08", "accepted:insert-paren@procdecl", "PROCEDURE(iface)) :: p with a surplus ')' is accepted", c08(wrap("  procedure(real)), pointer :: p"), "insert-paren@procdecl")),
-    ("C08", "accepted:insert-paren@intent", "INTENT(IN)) :: a with a surplus ')' is accepted", c08(wrap("  intent(in)) :: vf_a"), "insert-paren@intent")),
-    ("C08", "accepted:insert-paren@typedecl", "a type declaration with a surplus ')' after the type-spec or an attribute is accepted", c08(wrap("  real(8), intent(in)) :: vf_a"), "insert-paren@typedecl")),
     ("C08", "accepted:insert-paren@use", "USE m, ONLY: OPERATOR(+)) with a surplus ')' is accepted", c08(wrap("  use m, only: operator(+))"), "insert-paren@use")),
     ("C08", "accepted:insert-paren@access", "PUBLIC :: OPERATOR(*)) with a surplus ')' is accepted", c08("module m\n  public :: operator(*))\nend module m\n", "insert-paren@access")),
     ("C08", "accepted:insert-paren@interface", "INTERFACE OPERATOR(*)) with a surplus ')' is accepted", c08("module m\n  interface operator(*))\n  end interface\nend module m\n", "insert-paren@interface")),
@@ -196,8 +206,6 @@ OPEN = [
     ("C08", "accepted:delete-paren@use", "USE m, ONLY: OPERATOR(==, OPERATOR(.dot.) with a missing ')' is accepted", c08(wrap("  use m, only: operator(==, operator(.dot.)"), "delete-paren@use")),
     ("C08", "accepted:rename-construct-name@end_do", "a labelled DO construct closed by 'label END DO other_name' is accepted (no name check for Block_Label_Do_Construct)", c08(wrap("  nm: do 10 i = 1, 2\n  10 end do nm_zz"), "rename-construct-name@end_do")),
     ("C08", "accepted:delete-opener@do", "a labelled DO closed by an unlabelled END DO (with the labelled statement following) is accepted", c08(wrap("  do 46 k = 1, 3\n    exit\n  end do\n  46 continue"), "delete-opener@do")),
-    ("C08", "accepted:delete-paren@typedecl", "a type declaration with INTENT(...) followed by an attribute that lost its opening parenthesis (dimension3)) is accepted",
-     c08(wrap("  integer, intent(in), dimension3) :: vf_a"), "delete-paren@typedecl")),
     ("C08", "accepted:delete-opener@subprogram", "specification and executable statements directly after CONTAINS in a subprogram are accepted (seen when the opener of a contained subprogram is deleted)", c08("function f()\n  contains\n  integer :: a\n  a = 1\nend function\n", "delete-opener@subprogram")),
     ("C09", "tables-left-behind", "symbol tables of units matched before the failing unit of the same source stay behind (and a failing PROGRAM-less main program removes a 'fparser2:main_program' table made by an earlier parse): no transactional clean-up",
      {"mode": "leak", "text": "module a\n  integer :: sin\nend module a\nmodule b\n  x = = 1\nend module b\n"}),
